@@ -75,7 +75,37 @@ class VecDomain(NormDomain):
             return Unknown('component of an abstract vector')
         return NormDomain.subscript(self, v, idx, node)
 
+    def compare(self, op, a, b, node):
+        ra, rb = self.rat(a), self.rat(b)
+        pos = getattr(self.R, 'positive', None) or set()
+        if ra is not None and rb is not None:
+            d = ra - rb
+
+            def mono_sign(poly):
+                if len(poly.t) != 1:
+                    return None
+                (m, c), = poly.t.items()
+                for x, e in m:
+                    info = self.R.info.get(x)
+                    if not (x in pos or (info and info[0] == 'sqrt') or e % 2 == 0):
+                        return None
+                return 1 if c > 0 else -1
+            if d.is_zero():
+                sg = 0
+            else:
+                sn, sd = mono_sign(d.num), mono_sign(d.den)
+                sg = sn * sd if sn is not None and sd is not None else None
+            if sg is not None:
+                import operator
+                return {ast.Eq: operator.eq, ast.NotEq: operator.ne, ast.Lt: operator.lt, ast.LtE: operator.le, ast.Gt: operator.gt, ast.GtE: operator.ge}[type(op)](sg, 0)
+        return NormDomain.compare(self, op, a, b, node)
+
     def call_ext(self, dotted, args, kwargs, node):
+        if dotted == 'numpy.sign' and args and self.rat(args[0]) is not None:
+            t = self.compare(ast.Lt(), args[0], Const(0), node)
+            z = self.compare(ast.Eq(), args[0], Const(0), node)
+            if t is not None and z is not None:
+                return Const(0 if z else (-1 if t else 1))
         if dotted == 'numpy.atleast_2d':
             return Tup(list(args)) if len(args) > 1 else args[0]
         if dotted in ('numpy.asarray', 'numpy.array') and args and isinstance(args[0], VecV):
@@ -92,28 +122,48 @@ class VecDomain(NormDomain):
 
 
 def vector_rules(run, db):
-    def mk(unit_normal):
+    def mk(unit_normal, csign=None):
         def gram(a, b):
             R = dom.R
             if (a, b) == ('S', 'S'):
                 return Rat(R.const(1))
             if (a, b) == ('r', 'r'):
                 return Rat(R.const(1)) if unit_normal else Rat(R.atom('rho2'))
+            if csign is not None:
+                return csign * Rat(R.atom('cp'))          # S . r = +/- cp with cp > 0
             return Rat(R.atom('c'))          # S . r
         dom = VecDomain(gram)
-        dom.R.positive = {'n', 'nprime', 'rho2'}
+        dom.R.positive = {'n', 'nprime', 'rho2', 'cp'}
         it = install_pi(Interp(db, dom))
         return it, dom
-    # ---- refract
+    # ---- refract: the ray may travel with the normal (S.r > 0) or against it (S.r < 0, e.g. heading -z after a mirror)
     f = db.func(SM + 'refract')
+    for side, sg in (('with the normal', 1), ('against the normal', -1)):
+        _refract_case(run, db, f, mk, side, sg)
+    # ---- reflect
+    f = db.func(SM + 'reflect')
     it, dom = mk(unit_normal=False)
+    R = dom.R
+    res = [p for p in it.run(f, kwargs=lambda: {'S': dom.vec('S'), 'r': dom.vec('r')}) if p.outcome == 'return']
+    if len(res) != 1 or not isinstance(res[0].value, VecV):
+        raise AnalysisError('reflect does not evaluate to a vector expression')
+    out = res[0].value
+    n2 = dom.rat(dom.dot(out, out))
+    run.check(n2 == 1, 'C19.unit', f.qual, 'reflect unit length', "|S'|^2 == 1 for a normal of any length", "reflect: |S'|^2 = %s" % n2.key(), f.loc())
+    c, rho2 = Rat(R.atom('c')), Rat(R.atom('rho2'))
+    want = VecV({'S': Rat(R.const(1)), 'r': -2 * c / rho2})
+    run.check(out == want, 'C19.unit', f.qual, 'mirror law', "S' == S - 2 (S.r/|r|^2) r", "reflect returns %r, expected %r" % (out, want), f.loc())
+
+
+def _refract_case(run, db, f, mk, side, sg):
+    it, dom = mk(unit_normal=False, csign=sg)
     R = dom.R
     res = [p for p in it.run(f, kwargs=lambda: {'n': dom.sym('n'), 'nprime': dom.sym('nprime'), 'S': dom.vec('S'), 'r': dom.vec('r')}) if p.outcome == 'return']
     if len(res) != 1 or not isinstance(res[0].value, VecV):
-        raise AnalysisError('refract does not evaluate to a vector expression: %r' % ([p.value for p in res],))
+        raise AnalysisError('refract does not evaluate to a vector expression (%s): %r' % (side, [p.value for p in res]))
     out = res[0].value
     n2 = dom.rat(dom.dot(out, out))
-    run.check(n2 == 1, 'C19.unit', f.qual, 'refract unit length',
+    run.check(n2 == 1, 'C19.unit', f.qual, 'refract unit length (%s)' % side,
               "|S'|^2 == 1 for a unit incident direction and a surface normal of ANY length (the gradient (-Fx,-Fy,1) that intersect() hands over is not normalised)",
               "refract: |S'|^2 = %s for a normal of squared length rho2: the outgoing direction cosines only have unit length when the normal is a unit vector, but raytrace passes the un-normalised "
               "surface gradient from sag_normal, so every off-axis refracted ray violates Snell's law" % n2.key(), f.loc())
@@ -128,21 +178,21 @@ def vector_rules(run, db):
         return VecV({k: v.c.get(k, Rat(R.const(0))) - (d if k == 'r' else Rat(R.const(0))) for k in set(v.c) | {'r'}})
     t_out, t_in = tang(out), tang(Sv)
     scaled = VecV({k: c * mu for k, c in t_in.c.items()})
-    run.check(t_out == scaled, 'C19.unit', f.qual, 'snell', "tangential part of S' == (n/n') x tangential part of S: n sin(i) = n' sin(i') in the plane of incidence",
+    run.check(t_out == scaled, 'C19.unit', f.qual, 'snell (%s)' % side, "tangential part of S' == (n/n') x tangential part of S: n sin(i) = n' sin(i') in the plane of incidence",
               "refract: tangential component of S' is %r, expected (n/n') * %r" % (t_out, t_in), f.loc())
-    # ---- reflect
-    f = db.func(SM + 'reflect')
-    it, dom = mk(unit_normal=False)
-    R = dom.R
-    res = [p for p in it.run(f, kwargs=lambda: {'S': dom.vec('S'), 'r': dom.vec('r')}) if p.outcome == 'return']
-    if len(res) != 1 or not isinstance(res[0].value, VecV):
-        raise AnalysisError('reflect does not evaluate to a vector expression')
-    out = res[0].value
-    n2 = dom.rat(dom.dot(out, out))
-    run.check(n2 == 1, 'C19.unit', f.qual, 'reflect unit length', "|S'|^2 == 1 for a normal of any length", "reflect: |S'|^2 = %s" % n2.key(), f.loc())
-    c, rho2 = Rat(R.atom('c')), Rat(R.atom('rho2'))
-    want = VecV({'S': Rat(R.const(1)), 'r': -2 * c / rho2})
-    run.check(out == want, 'C19.unit', f.qual, 'mirror law', "S' == S - 2 (S.r/|r|^2) r", "reflect returns %r, expected %r" % (out, want), f.loc())
+    # forward continuation: the normal component of S' has the sign of the normal component of S
+    dout = dom.rat(dom.dot(out, rvec))
+    cp, rho2 = Rat(R.atom('cp')), Rat(R.atom('rho2'))
+    mag2 = rho2 * (1 - mu * mu * (1 - cp * cp / rho2))          # (S'.r)^2 for a unit S'
+    ok_mag = (dout * dout) == mag2
+    # sign: S'.r = sg * sqrt(rho2) * sqrt(1 - mu^2 (1 - cosI^2)); compare with the same NORM constructors
+    from ..core.norm import _rat as _r
+    root = _r(R.sqrt(1 - mu * mu * (1 - cp * cp / rho2))) * _r(R.sqrt(rho2))
+    ok_sign = dout == sg * root
+    run.check(ok_mag and ok_sign, 'C19.unit', f.qual, 'side of the surface (ray %s)' % side,
+              "S'.r has the sign of S.r: the refracted ray continues to the side of the surface the incident ray was heading for [%s]" % side,
+              "refract, ray travelling %s: S'.r = %s, expected %s -- the transmitted ray comes back out of the side it came from (a ray heading -z, e.g. after a mirror, is sent to +z)"
+              % (side, dout.key(), (sg * root).key()), f.loc())
 
 
 def frame_rules(run, db):
@@ -219,6 +269,32 @@ def normal_rules(run, db):
                 bad.append(n)
     run.check(not bad, 'C19.axis0', g.qual, 'division by r', 'no unguarded division by the radial coordinate (a ray on the axis of symmetry has r = 0)',
               'the Cartesian normal is formed with `%s`: for a ray exactly on the axis (r = 0) this is inf * 0 = NaN and the ray is lost' % (ast.unparse(bad[0]) if bad else ''), g.loc(bad[0]) if bad else g.loc())
+    # callers: at r == 0 the helper can only be right when the azimuthal slope vanishes identically (surface symmetric about
+    # the local origin); a caller with a non-zero azimuthal slope must treat the local origin itself
+    ci = db.cls(SF + 'Surface')
+    ncall = 0
+    for mname, m in sorted(ci.methods.items()):
+        for closure in [n for n in ast.walk(m.node) if isinstance(n, ast.FunctionDef) and n is not m.node]:
+            for c in [n for n in ast.walk(closure) if isinstance(n, ast.Call) and ast.unparse(n.func) == 'surface_normal_from_cylindrical_derivatives']:
+                ncall += 1
+                ft_arg = c.args[1] if len(c.args) > 1 else None
+                symmetric = isinstance(ft_arg, ast.Constant) and ft_arg.value == 0
+                if symmetric:
+                    run.ok('C19.axis0', m.qual, 'azimuthal slope is identically 0: the r == 0 value of the helper is exact')
+                    continue
+                tgt = [ast.unparse(t) for n in ast.walk(closure) if isinstance(n, ast.Assign) and n.value is c for t in n.targets]
+                outs = [x.strip('() ') for x in tgt[0].split(',')] if tgt else []
+                fixed = []
+                for n in ast.walk(closure):
+                    if isinstance(n, ast.Assign) and isinstance(n.targets[0], ast.Name) and n.targets[0].id in outs and isinstance(n.value, ast.Call) and ast.unparse(n.value.func).endswith('where') \
+                            and n.lineno > c.lineno:
+                        fixed.append(n.targets[0].id)
+                run.check(len(outs) == 2 and set(fixed) == set(outs), 'C19.axis0', m.qual, 'local origin of a non-symmetric surface',
+                          'the slopes at r == 0 are supplied by the caller (both Cartesian slopes overridden where r == 0) because the azimuthal slope does not vanish there',
+                          '%s hands the non-zero azimuthal slope `%s` to surface_normal_from_cylindrical_derivatives and uses its r == 0 value (ft/r := 0): for a surface that is not symmetric about '
+                          'its local origin the ray through that origin (the chief ray of an off-axis conic) gets a normal without the slope across the decentre' % (mname, ast.unparse(ft_arg) if ft_arg is not None else '?'), m.loc(c))
+    if ncall < 2:
+        raise AnalysisError('Surface: fewer than two closures convert cylindrical slopes to a normal')
     # formula: x = fp cos t - ft sin t / r ; y = fp sin t + ft cos t / r
     it = install_pi(Interp(db, NormDomain()))
     dom = it.dom
